@@ -75,27 +75,29 @@ def reopenFull (p : List Byte → ParseRes) (lo : Nat) : Prop :=
 /-- the full statement: every closed file -/
 def pvf_reopen_full : Prop := reopenFull parse 0
 
-/-- the class of the known finding KF-PVF-TINY-FILE: the whole file is shorter than the 12 bytes the type detection
-    reads (an 11-byte header and no audio) -/
+/-- the class of the repaired defect KF-PVF-TINY-FILE: the whole file is shorter than the 12 bytes the type detection
+    used to insist on (an 11-byte header and no audio) -/
 def KF.tinyFile (c : Cfg) (ops : List WOp) : Prop := (hdr c).length + (opsData ops).length < 12
 instance (c : Cfg) (ops : List WOp) : Decidable (KF.tinyFile c ops) := by unfold KF.tinyFile; infer_instance
 
-/-- **pvf_reopen_info** (`…_partial`: everything outside the class KF.tinyFile; the class KF.shortHeader is no longer
-    excluded since the repair of KF-PVF-SHORT-HEADER).  For every accepted configuration — also the 11-byte headers —
-    and every session that leaves at least 12 bytes, the closed file re-opens with the requested channels, PVF / the
-    requested PCM width, exactly the requested rate, and frames = audio bytes / block width. -/
-theorem pvf_reopen_info (c : Cfg) (hwf : c.wf) (stale : Nat) (ops : List WOp) (hk : ¬ KF.tinyFile c ops) :
+/-- **pvf_reopen_info** (full strength: no class is excluded any more — KF.shortHeader since the repair of
+    KF-PVF-SHORT-HEADER, KF.tinyFile since the repair of KF-PVF-TINY-FILE: `guess_file_type` probes what a file shorter
+    than 12 bytes has).  For every accepted configuration and every session — also the 11-byte file without audio —
+    the closed file re-opens with the requested channels, PVF / the requested PCM width, exactly the requested rate, and
+    frames = audio bytes / block width. -/
+theorem pvf_reopen_info (c : Cfg) (hwf : c.wf) (stale : Nat) (ops : List WOp) :
     parse (closedBytes (fmt c) stale ops) =
       .ok { ch := c.ch, fmt := 0x0E0000 + c.codec, sr := quant c.sr, frames := (opsData ops).length / (bytewidth c.codec * c.ch) } := by
-  unfold KF.tinyFile at hk
   rw [(closedBytes_eq c stale ops).1]
   show parseWith true _ = _
-  rw [parseWith_image true c hwf _ (by simp; omega)]
+  rw [parseWith_image true c hwf _ (by intro h; cases h)]
   have : offOf true c = (hdr c).length := rfl
   rw [this, Nat.add_sub_cancel_left]; rfl
 
-theorem pvf_reopen_partial : reopenFull parse 12 := fun c hwf stale ops h =>
-  pvf_reopen_info c hwf stale ops (by unfold KF.tinyFile; omega)
+/-- the full statement holds -/
+theorem pvf_reopen_holds : pvf_reopen_full := fun c hwf stale ops _ => pvf_reopen_info c hwf stale ops
+
+theorem pvf_reopen_partial : reopenFull parse 12 := fun c hwf stale ops _ => pvf_reopen_info c hwf stale ops
 
 /-- **pvf_short_header_old_rule.**  Before the repair (`psf->dataoffset = psf_ftell (psf)`), inside the class
     KF.shortHeader and with at least one byte of audio, the reader started the audio one byte late (data offset 12
@@ -108,7 +110,7 @@ theorem pvf_short_header_old_rule (c : Cfg) (hwf : c.wf) (stale : Nat) (ops : Li
   unfold KF.shortHeader at hk
   rw [(closedBytes_eq c stale ops).1]
   show parseWith false _ = _
-  rw [parseWith_image false c hwf _ (by simp; omega)]
+  rw [parseWith_image false c hwf _ (fun _ => by simp; omega)]
   have : offOf false c = 12 := by unfold offOf; exact Nat.max_eq_left (by omega)
   rw [this]
 
@@ -119,28 +121,41 @@ theorem pvf_reopen_info_old_rule (c : Cfg) (hwf : c.wf) (stale : Nat) (ops : Lis
   unfold KF.shortHeader at hk
   rw [(closedBytes_eq c stale ops).1]
   show parseWith false _ = _
-  rw [parseWith_image false c hwf _ (by simp; omega)]
+  rw [parseWith_image false c hwf _ (fun _ => by simp; omega)]
   have : offOf false c = (hdr c).length := by unfold offOf; exact Nat.max_eq_right (by omega)
   rw [this, Nat.add_sub_cancel_left]
 
-/-- the class of KF-PVF-TINY-FILE: the whole file is shorter than the 12 bytes the type detection reads -/
-theorem pvf_tiny_not_reopened (c : Cfg) (stale : Nat) (ops : List WOp) (h : KF.tinyFile c ops) :
-    parse (closedBytes (fmt c) stale ops) = .err := by
+/-- **pvf_tiny_not_reopened_old_rule.**  Before the repair of KF-PVF-TINY-FILE (a 12-byte probe or SFE_BAD_FILE_READ) every
+    closed file in the class KF.tinyFile was refused -/
+theorem pvf_tiny_not_reopened_old_rule (c : Cfg) (stale : Nat) (ops : List WOp) (h : KF.tinyFile c ops) :
+    parseProbe12 (closedBytes (fmt c) stale ops) = .err := by
   unfold KF.tinyFile at h
   rw [(closedBytes_eq c stale ops).1]
-  unfold parse parseWith
-  rw [if_pos (by simp; omega)]
+  unfold parseProbe12 parseWithP
+  rw [if_pos ⟨by simp; omega, Or.inl rfl⟩]
+
+/-- … and outside that class the old probe did what the current one does -/
+theorem pvf_reopen_info_probe12_old_rule (c : Cfg) (stale : Nat) (ops : List WOp) (hk : ¬ KF.tinyFile c ops) :
+    parseProbe12 (closedBytes (fmt c) stale ops) = parse (closedBytes (fmt c) stale ops) := by
+  unfold KF.tinyFile at hk
+  rw [(closedBytes_eq c stale ops).1]
+  unfold parseProbe12 parse parseWith parseWithP
+  have h12 : ¬ (hdr c ++ opsData ops).length < 12 := by simp; omega
+  rw [if_neg (fun h => h12 h.1), if_neg (fun h => h12 h.1)]
 
 /-- two channels of 8-bit samples at 1 Hz, three frames (findings/kf_pvf_short_header.txt) -/
 def shortCfg : Cfg := ⟨1, 2, 1⟩
 def shortOps : List WOp := [.write [1, 2, 3, 4, 5, 6] false]
 
 /-- the witness of the repaired KF-PVF-SHORT-HEADER re-opens with its three frames; the old reader found two; the
-    11-byte file without audio (KF-PVF-TINY-FILE, findings/kf_pvf_tiny_file.txt) still cannot be re-opened -/
+    11-byte file without audio (the repaired KF-PVF-TINY-FILE, findings/kf_pvf_tiny_file.txt) re-opens with no frames,
+    the old probe refused it -/
 theorem pvf_short_witness : shortCfg.wf ∧ KF.shortHeader shortCfg ∧
     parse (closedBytes (fmt shortCfg) 0 shortOps) = .ok ⟨2, 0x0E0001, 1, 3⟩ ∧
     parseOld (closedBytes (fmt shortCfg) 0 shortOps) = .ok ⟨2, 0x0E0001, 1, 2⟩ ∧
-    KF.tinyFile shortCfg [] ∧ parse (closedBytes (fmt shortCfg) 7 []) = .err := by decide +kernel
+    KF.tinyFile shortCfg [] ∧ (closedBytes (fmt shortCfg) 7 []).length = 11 ∧
+    parse (closedBytes (fmt shortCfg) 7 []) = .ok ⟨2, 0x0E0001, 1, 0⟩ ∧
+    parseProbe12 (closedBytes (fmt shortCfg) 7 []) = .err := by decide +kernel
 
 /-- the full statement failed for the old reader on files of at least 12 bytes: the three frames re-opened as two -/
 theorem pvf_reopen_old_rule_fails : ¬ reopenFull parseOld 12 := by
@@ -149,16 +164,16 @@ theorem pvf_reopen_old_rule_fails : ¬ reopenFull parseOld 12 := by
   rw [pvf_short_witness.2.2.2.1] at h1
   revert h1; decide
 
-/-- the full statement still fails, for the 11-byte file only (KF-PVF-TINY-FILE) -/
-theorem pvf_reopen_full_fails : ¬ pvf_reopen_full := by
+/-- the full statement failed for the old probe, for the 11-byte file (KF-PVF-TINY-FILE) -/
+theorem pvf_reopen_probe12_old_rule_fails : ¬ reopenFull parseProbe12 0 := by
   intro h
   have h1 := h shortCfg pvf_short_witness.1 7 [] (by decide)
-  rw [pvf_short_witness.2.2.2.2.2] at h1
+  rw [pvf_short_witness.2.2.2.2.2.2.2] at h1
   revert h1; decide
 
 def exCfg : Cfg := ⟨2, 2, 44100⟩
 def exOps : List WOp := [.write [0, 1, 0, 2] false, .update, .write [0, 3, 0, 4, 0, 5, 0, 6] true]
-example : exCfg.wf ∧ ¬ KF.tinyFile exCfg exOps ∧ (closedBytes (fmt exCfg) 77 exOps).length = 28 ∧
+example : exCfg.wf ∧ (closedBytes (fmt exCfg) 77 exOps).length = 28 ∧
     parse (closedBytes (fmt exCfg) 77 exOps) = .ok ⟨2, 0x0E0002, 44100, 3⟩ := by decide +kernel
 
 /-- **pvf_size_fields.**  PVF has no size field: the closed file is exactly the text header followed by the audio
@@ -188,17 +203,18 @@ theorem stale_frames_ignored_pvf (c : Cfg) (a b : Nat) (ops : List WOp) :
 example : closedBytes (fmt exCfg) 0 exOps = closedBytes (fmt exCfg) 123456 exOps := by decide +kernel
 
 /-- **pvf_snapshot_valid.**  After any session prefix, the image a header update leaves in the store is the file
-    a close at that instant would produce; outside KF.tinyFile it parses with the same parameters and exactly
-    the frames written so far. -/
-theorem pvf_snapshot_valid (c : Cfg) (hwf : c.wf) (stale : Nat) (ops : List WOp) (hk : ¬ KF.tinyFile c ops) :
+    a close at that instant would produce; it parses with the same parameters and exactly the frames written so far
+    (also the 11-byte image of an update issued before any audio: KF-PVF-TINY-FILE is repaired). -/
+theorem pvf_snapshot_valid (c : Cfg) (hwf : c.wf) (stale : Nat) (ops : List WOp) :
     parse (snapshotBytes (fmt c) stale ops) =
       .ok { ch := c.ch, fmt := 0x0E0000 + c.codec, sr := quant c.sr, frames := (opsData ops).length / (bytewidth c.codec * c.ch) } ∧
     snapshotBytes (fmt c) stale ops = hdr c ++ opsData ops := by
-  have := pvf_reopen_info c hwf stale ops hk
+  have := pvf_reopen_info c hwf stale ops
   rw [(closedBytes_eq c stale ops).1] at this
   rw [(closedBytes_eq c stale ops).2]
   exact ⟨this, rfl⟩
 
-example : parse (snapshotBytes (fmt exCfg) 5 [.write [1, 2, 3, 4] false]) = .ok ⟨2, 0x0E0002, 44100, 1⟩ := by decide +kernel
+example : parse (snapshotBytes (fmt exCfg) 5 [.write [1, 2, 3, 4] false]) = .ok ⟨2, 0x0E0002, 44100, 1⟩ ∧
+    parse (snapshotBytes (fmt shortCfg) 5 [.update]) = .ok ⟨2, 0x0E0001, 1, 0⟩ := by decide +kernel
 
 end Sf.C04Pvf
